@@ -189,7 +189,24 @@ def r07_6(ctx) -> None:
     ctx.check(consts == T.OKP_CURVES, "R07.6", gk, gk.node, "OKP crv names", f"OKP crv names {sorted(x for x in consts if x)}", f"= {sorted(T.OKP_CURVES)}", construct="OKP crv names")
 
 
+def r07_10(ctx) -> None:
+    """HMAC uses the raw key octets: the octets given to OctKey.import_key are the octets of the key - OctBinding.import_from_bytes
+    returns its argument itself (no strip / normalisation), and import_key converts text with to_bytes only"""
+    eng = ctx.eng
+    fn = eng.prog.cls("rfc7518.oct_key:OctBinding").methods.get("import_from_bytes")
+    if fn is None:
+        raise AnalysisError("OctBinding.import_from_bytes vanished")
+    vp = fn.pos_params[1]
+    rets = [r.value for r in fn_nodes(fn) if isinstance(r, ast.Return) and r.value is not None]
+    rebinds = [n for n in fn_nodes(fn) if isinstance(n, (ast.Assign, ast.AugAssign, ast.AnnAssign)) and any(isinstance(t, ast.Name) and t.id == vp for t in
+               (n.targets if isinstance(n, ast.Assign) else [n.target]))]
+    ok = bool(rets) and all(isinstance(r, ast.Name) and r.id == vp for r in rets) and not rebinds
+    ctx.check(ok, "R07.10", fn, fn.node, fn.short, "the secret imported from bytes is not the given octet string itself (it is re-bound / transformed before being returned)",
+              f"return {vp}", construct="oct import returns the given octets")
+
+
 def run(ctx) -> None:
+    ctx.guard(r07_10)
     ctx.guard(r07_1)
     ctx.guard(r07_2)
     ctx.guard(r01_3)  # R07.3: reported under its own rule id R01.3
@@ -199,7 +216,9 @@ def run(ctx) -> None:
     from .c03 import r03_5
     ctx.guard_as("R07.7", r03_5)
     from .c19 import r19_4_5
-    ctx.guard_as("R07.8", r19_4_5)  # header JSON codec: foreign spellings (raw UTF-8, escapes) decode, own output is compact ASCII  # b64=false compact: which payloads stay attached (no '.' inside a compact token)
+    ctx.guard_as("R07.8", r19_4_5)
+    from .c20 import r20_6
+    ctx.guard_as("R07.9", r20_6)  # every verification yields its own header object (no memoised decode results)  # header JSON codec: foreign spellings (raw UTF-8, escapes) decode, own output is compact ASCII  # b64=false compact: which payloads stay attached (no '.' inside a compact token)
     ctx.note("R07.3 (foreign header spellings verify because the received octets are verified) and R07.4 (R||S width) reuse the C01 / C03 rule implementations and keep their rule ids")
     ctx.note("undecided remainder: agreement with an independent implementation for every key, header and payload needs an oracle implementation - a different technique")
     ctx.assume("RFC 7518 section 3 / RFC 8037 / RFC 8812 parameter table as transcribed in jv/spec/tables.py")
